@@ -220,7 +220,6 @@ for pid, add in EXT5.items():
     CHECKS[pid]["text"] += add
 # technique strings: what was added to each check's deciding machinery since the first version
 TECH_ADD = {
- "C01": "; exhaustive enumeration of binary configurations is in C02/C03",
  "C02": " + exhaustive enumeration of --contract.price spellings against the real binary (clock-bracket oracle)",
  "C03": " + exhaustive enumeration of --contract.min-balance spellings / unit names against the real binary and of the binary wired to the real contract on a served simulated chain",
  "C04": " + exhaustive unsigned probing of the registered RPC surface",
